@@ -16,7 +16,7 @@ SEGS = [b"a", b"index.html", b"%20", b"%41", b"%2e%2e", b"%2F", b"%25", b"x y".r
         b"..", b".", b"", b"~user", b"a-b_c.d", b"%7e", b"%0d%0a", b"+", b"a;b", b"a=b", b"@", b":"]
 BAD_TARGETS = [b"http://[::1", b"/%zz", b"//[", b"/a b", b"\x00", b"/\xff\xfe", b"http://a:b/", b"/%", b"/%4", b"[", b"/a\x7f", b" "]
 NAMES = [b"Host", b"host", b"HOST", b"Content-Length", b"content-length", b"X-A", b"x-a", b"X-B", b"Accept", b"X-\xc9", b"x-\xe9",
-         b"Authorization", b"Range", b"", b"A B"]
+         b"Authorization", b"Range", b"", b"A B", b"X-Id\x00a", b"X-Id\x00b", b"x-id\x00A", b"X-Id", b"Content-Length\x00x"]
 # names a header line may carry: a blank name (NAMES has b"") makes the line malformed (the parser refuses it)
 NAMES_NB = [n for n in NAMES if n.strip()]
 # header lines with nothing but white space before the first colon: not of the form `name: value`
@@ -529,7 +529,15 @@ def gen_C16(rng, count, tier):
         for _ in range(20):
             k = rng.randrange(6)
             f, t, s, s2 = (pick(rng, big + vals) * pick(rng, [1, 1, -1]) for _ in range(4))
-            if k == 5:
+            if k == 5 and rng.random() < 0.3:
+                # copy-with-new-size of a range that was asked about first
+                toks.append("qc:%d:%d:%d:%d" % (f, t, s, s2))
+            elif k == 5 and rng.random() < 0.2:
+                # digits of other scripts (QChar::isDigit() is true of them, toInt() is not): not a byte range
+                dig = pick(rng, ["\u0661", "\u0663", "\u06f2", "\u0967", "\uff11", "1\u0662"])
+                txt = pick(rng, [dig + "-" + dig, dig + "-", "-" + dig, "1-" + dig, dig + "-5"])
+                toks.append("s:%s:%d" % (hx(txt.encode("utf-8")), pick(rng, [-1, 10, 1000])))
+            elif k == 5:
                 # the object held another range, and was asked about it, before it was assigned this one
                 f0, t0, s0 = pick(rng, [(0, 99, 100), (100, 10, 50), (0, -1, -1), (5, 5, 3), (-3, -1, 10), (0, 0, 0)])
                 if rng.random() < 0.6:
@@ -639,6 +647,13 @@ def gen_route(rng, count, accept_p):
             toks.append("late")          # handler installed after the connection was accepted
         elif r < 0.16:
             toks.append("unsetlate")     # handler removed after the connection was accepted
+        if rng.random() < 0.1 and not any(x.startswith("warm:") for x in toks):
+            # a one-shot middleware: it accepts and destroys itself inside process() (verdict 3); those attached after it are
+            # still consulted for this request (no earlier requests in these scenarios: the handler keeps a raw pointer)
+            for j, x in enumerate(toks):
+                if x.startswith("mw:") and x.endswith(":1"):
+                    toks[j] = x[:-2] + ":3"
+                    break
         if r >= 0.16 and rng.random() < 0.12:
             # the request (well-formed or not) is already in the transport's buffer when the server takes the connection
             if rng.random() < 0.5:
@@ -1326,6 +1341,13 @@ def upstream_response(rng):
 
 
 def gen_C13(rng, count, tier):
+    # a response that stays open for a long (virtual) time while the client is still sending: relayed to the end
+    for wait in (21000, 61000, 3600000):
+        head, body = b"POST /p HTTP/1.1\r\nContent-Length: 6", b"abcdef"
+        yield ("proxy", " ".join(["new", "feed:" + hx(head + b"\r\n\r\n" + body[:3]), "turn", "up:" + hx(b"HTTP/1.1 200 OK\r\n\r\npart1-"), "turn",
+                                  "feed:" + hx(body[3:]), "turn", "advance:%d" % wait, "turn", "up:" + hx(b"part2"), "turn", "upclose", "turn", "ackall", "turn"]))
+        yield ("proxy", " ".join(["new", "feed:" + hx(b"GET /p HTTP/1.1\r\n\r\n"), "turn", "advance:%d" % wait, "turn",
+                                  "up:" + hx(b"HTTP/1.1 200 OK\r\n\r\nlate"), "turn", "upclose", "turn", "ackall", "turn"]))
     for i in range(count):
         head, body = proxy_request(rng, with_body=False)
         evs = ["new", "feed:" + hx(head + b"\r\n\r\n" + body), "turn"]
